@@ -4,7 +4,7 @@ From Grex Require Import Base.Str Model.Config Model.Cluster Model.Dfa Model.Exp
 From Grex Require Import Proofs.RepInv Proofs.Provenance Proofs.ProvenanceInst Proofs.PropsGlue.
 From Grex Require Import Engine.Syntax Engine.Parse.
 From Grex Require Import Proofs.Spec Proofs.PrintParseNum Proofs.PrintParseDefs Proofs.PrintParseXTok
-  Proofs.PropsGlueE2E Proofs.BracesThresholds.
+  Proofs.PropsGlueE2E Proofs.BracesThresholds Proofs.ThrMono.
 
 (* every grapheme g of a literal of the final expression (lit_in g e): either it is not
    repeated, or its upper bound exceeds min_rep and its unit has at least min_len characters *)
@@ -104,6 +104,19 @@ Theorem C13_thresholds_deep : forall c db ws sc e g,
   /\ (f_rep c = false -> (g_min g = 1%N /\ g_max g = 1%N) /\ g_reps g = []).
 Proof. exact final_expr_thr_deep_lit. Qed.
 
+(* last clause of the property: raising a threshold can only turn quantified parts back into
+   literal text — the build with higher thresholds (c') re-brackets the same text, and each of its
+   quantified parts is admissible for the lower thresholds (c) as well *)
+Theorem C13_raise_thresholds : forall c c' cl,
+  ThrMono.thr_le c c' -> Forall plain cl ->
+  Forall (thr_ok c) (convert_repetitions c' cl)
+  /\ expand (convert_repetitions c' cl) = expand (convert_repetitions c cl).
+Proof. exact ThrMono.raise_thresholds. Qed.
+
+Theorem C13_threshold_order : forall c c' g,
+  ThrMono.thr_le c c' -> thr_lbl c' g -> thr_lbl c g.
+Proof. exact ThrMono.thr_lbl_mono. Qed.
+
 Print Assumptions C13_thresholds.
 Print Assumptions C13_no_braces.
 Print Assumptions C13_clusters.
@@ -112,3 +125,5 @@ Print Assumptions C13_braces_shape.
 Print Assumptions C13_build_braces.
 Print Assumptions C13_build_braces_full.
 Print Assumptions C13_thresholds_deep.
+Print Assumptions C13_raise_thresholds.
+Print Assumptions C13_threshold_order.
